@@ -89,6 +89,7 @@ THEOREMS += [
     "Ymq.C15.from_point_fin_sound",
     "Ymq.C15.select_curve_fin_sound",
     "Ymq.C15.ecm_select_fin_sound",
+    "Ymq.C15.select128_fin_sound",
 ]
 PROFILES = ["release", "chk"]
 TIMEOUT = 30.0
